@@ -1,0 +1,142 @@
+//go:build verif
+
+/*
+ * Verification hooks (build tag "verif"). Nothing in this file is compiled into the
+ * normal binary or the test suite; it only exposes constructors and read-only snapshots
+ * of unexported state to the harness under /verif.
+ */
+
+package server
+
+import (
+	"context"
+	"net/http"
+	"sort"
+
+	"github.com/milvus-io/milvus/pkg/mq/msgdispatcher"
+	"github.com/milvus-io/milvus/pkg/util/typeutil"
+
+	"github.com/zilliztech/milvus-cdc/core/api"
+	cdcreader "github.com/zilliztech/milvus-cdc/core/reader"
+	serverapi "github.com/zilliztech/milvus-cdc/server/api"
+	"github.com/zilliztech/milvus-cdc/server/model"
+	"github.com/zilliztech/milvus-cdc/server/model/meta"
+)
+
+// NewVerifMetaCDC builds a MetaCDC around an injected meta store factory and MQ factory creator,
+// skipping the connectivity checks of NewMetaCDC (etcd / MQ are not reachable in the harness).
+func NewVerifMetaCDC(cfg *CDCServerConfig, factory serverapi.MetaStoreFactory, creator cdcreader.FactoryCreator) *MetaCDC {
+	if cfg.MaxNameLength == 0 {
+		cfg.MaxNameLength = 256
+	}
+	cdc := &MetaCDC{metaStoreFactory: factory, config: cfg, mqFactoryCreator: creator}
+	cdc.collectionNames.data = make(map[string][]string)
+	cdc.collectionNames.excludeData = make(map[string][]string)
+	cdc.collectionNames.extraInfos = make(map[string]model.ExtraInfo)
+	cdc.collectionNames.nameMapping = make(map[string]map[string]string)
+	cdc.cdcTasks.data = make(map[string]*meta.TaskInfo)
+	cdc.replicateEntityMap.data = make(map[string]*ReplicateEntity)
+	return cdc
+}
+
+// VerifPutEntity registers a replicate entity for the target key exactly as newReplicateEntity does
+// (including the two consumer goroutines), but from injected parts.
+func (e *MetaCDC) VerifPutEntity(uKey string, cm api.ChannelManager, target api.TargetAPI, metaOp api.MetaOp, w api.Writer, d msgdispatcher.Client) {
+	e.replicateEntityMap.Lock()
+	defer e.replicateEntityMap.Unlock()
+	replicateCtx, cancel := context.WithCancel(context.Background())
+	cm.SetCtx(replicateCtx)
+	entity := &ReplicateEntity{
+		targetClient: target, channelManager: cm, metaOp: metaOp, writerObj: w,
+		entityQuitFunc: cancel, mqDispatcher: d, mqTTDispatcher: d,
+		taskQuitFuncs: typeutil.NewConcurrentMap[string, func()](),
+	}
+	e.replicateEntityMap.data[uKey] = entity
+	e.startReplicateAPIEvent(replicateCtx, entity)
+	e.startReplicateDMLChannel(replicateCtx, entity)
+}
+
+// VerifEntity is a read-only view of one replicate entity.
+type VerifEntity struct {
+	Key       string
+	RefCnt    int32
+	QuitTasks []string
+}
+
+// VerifTask is a read-only view of one in-memory task.
+type VerifTask struct {
+	TaskID  string
+	State   meta.TaskState
+	Reason  string
+	Exclude []string
+}
+
+// VerifSnapshot is a deep copy of the server's in-memory bookkeeping.
+type VerifSnapshot struct {
+	Data        map[string][]string
+	Exclude     map[string][]string
+	Extra       map[string]bool
+	NameMapping map[string]map[string]string
+	Tasks       []VerifTask
+	Entities    []VerifEntity
+}
+
+func (e *MetaCDC) VerifSnapshot() VerifSnapshot {
+	s := VerifSnapshot{
+		Data: map[string][]string{}, Exclude: map[string][]string{}, Extra: map[string]bool{},
+		NameMapping: map[string]map[string]string{},
+	}
+	e.collectionNames.RLock()
+	for k, v := range e.collectionNames.data {
+		s.Data[k] = append([]string{}, v...)
+	}
+	for k, v := range e.collectionNames.excludeData {
+		s.Exclude[k] = append([]string{}, v...)
+	}
+	for k, v := range e.collectionNames.extraInfos {
+		s.Extra[k] = v.EnableUserRole
+	}
+	for k, v := range e.collectionNames.nameMapping {
+		m := map[string]string{}
+		for a, b := range v {
+			m[a] = b
+		}
+		s.NameMapping[k] = m
+	}
+	e.collectionNames.RUnlock()
+	e.cdcTasks.RLock()
+	for _, t := range e.cdcTasks.data {
+		s.Tasks = append(s.Tasks, VerifTask{TaskID: t.TaskID, State: t.State, Reason: t.Reason, Exclude: append([]string{}, t.ExcludeCollections...)})
+	}
+	e.cdcTasks.RUnlock()
+	sort.Slice(s.Tasks, func(i, j int) bool { return s.Tasks[i].TaskID < s.Tasks[j].TaskID })
+	e.replicateEntityMap.RLock()
+	for k, en := range e.replicateEntityMap.data {
+		ve := VerifEntity{Key: k, RefCnt: en.refCnt.Load()}
+		en.taskQuitFuncs.Range(func(id string, _ func()) bool {
+			ve.QuitTasks = append(ve.QuitTasks, id)
+			return true
+		})
+		sort.Strings(ve.QuitTasks)
+		s.Entities = append(s.Entities, ve)
+	}
+	e.replicateEntityMap.RUnlock()
+	sort.Slice(s.Entities, func(i, j int) bool { return s.Entities[i].Key < s.Entities[j].Key })
+	return s
+}
+
+// VerifCheckDuplicateCollection calls the unexported duplicate / overlap check.
+func (e *MetaCDC) VerifCheckDuplicateCollection(uKey string, names []string, extra model.ExtraInfo, mapping map[string]string) ([]string, error) {
+	return e.checkDuplicateCollection(uKey, names, extra, mapping)
+}
+
+// VerifMatchCollectionName exposes matchCollectionName.
+func VerifMatchCollectionName(sample, target string) (bool, bool) {
+	return matchCollectionName(sample, target)
+}
+
+// NewVerifHandler returns the /cdc HTTP handler around an injected service.
+func NewVerifHandler(svc CDCService, cfg *CDCServerConfig) http.Handler {
+	c := &CDCServer{api: svc, serverConfig: cfg}
+	return c.getCDCHandler()
+}
